@@ -141,7 +141,7 @@ func main() {
 		if h == nil {
 			fail(out, spec.Out, "harness not found: "+r.Pkg+"."+r.Func)
 		}
-		c := &Config{MaxSteps: 2000000, Unwind: 64, MaxMakeSlice: 64, StubPkgs: spec.StubPkgs, RealPkgs: spec.RealPkgs,
+		c := &Config{MaxSteps: 2000000, Unwind: 64, MaxMakeSlice: 70000, StubPkgs: spec.StubPkgs, RealPkgs: spec.RealPkgs,
 			InitPkgs: spec.InitPkgs, ModelFor: models, Workers: slots, SolverBin: spec.Solver,
 			SolverTimeoutMs: spec.TimeoutMs, Seed: spec.Seed, MaxPreempt: 2, MapOrderAll: true}
 		if r.Unwind > 0 {
